@@ -815,7 +815,19 @@ class Interp:
 
     def x_Assign(self, s):
         tv = self.eval(s.e)
-        cell = self.resolve(s.lv)
+        try:
+            cell = self.resolve(s.lv)
+        except QError:
+            # a bad subscript of the target AND a value that does not fit the
+            # target's type: which of the two errors comes first is not
+            # prescribed (qbee converts before it addresses the element)
+            t = s.lv.t
+            if t in ('%', '&', '!', '#') and tv[0] != '$':
+                try:
+                    self.conv(tv, t)
+                except QError:
+                    raise Unsupported('two faults in one assignment')
+            raise
         self.assign_cell(cell, tv)
 
     def x_RetAssign(self, s):
